@@ -27,4 +27,4 @@ for sid in ids:
         shutil.rmtree(scratch, ignore_errors=True)
     meta["caught_by"] = [p for p, r in meta["checks"].items() if r["exit"] == 1]
     json.dump(meta, open(os.path.join(d, "meta.json"), "w"), indent=1)
-    print(sid, {p: (r["exit"], r["wall_s"]) for p, r in meta["checks"].items()}, flush=True)
+    print(sid, {p: (r["exit"], r.get("wall_s")) for p, r in meta["checks"].items()}, flush=True)
